@@ -21,11 +21,14 @@ pub struct Cfg {
     pub comm: [u128; 2],  // atomics
     pub unbonding: u64,   // seconds
     pub d1_balance: Option<(u128, u128)>, // symbolic range for D1's balance; None = concrete 10^15
+    /// how `Advance` moves the clock: 0 update_block (time and height), 1 update_block changing the
+    /// time only, 2 set_block with the same height and the new time
+    pub advance_mode: u8,
 }
 
 impl Default for Cfg {
     fn default() -> Self {
-        Cfg { apr: E18 / 10, comm: [E18 / 10, 333_333_333_333_333_333], unbonding: 60, d1_balance: None }
+        Cfg { apr: E18 / 10, comm: [E18 / 10, 333_333_333_333_333_333], unbonding: 60, d1_balance: None, advance_mode: 0 }
     }
 }
 
@@ -628,14 +631,24 @@ impl Stk {
                     DtSel::Boundary => u64_of(DT_BOUNDARY[choose(DT_BOUNDARY.len())]),
                 };
                 note(format!("#{} advance {}", n, show(v64(dtv))));
+                let mode = self.cfg.advance_mode;
                 let r = catch(|| {
-                    self.app.update_block(|b| {
+                    let step = |b: &mut cosmwasm_std::BlockInfo| {
                         b.time = match nanos {
                             Some(x) => b.time.plus_nanos(x),
                             None => b.time.plus_seconds(dtv),
                         };
-                        b.height += 1;
-                    })
+                        if mode == 0 {
+                            b.height += 1;
+                        }
+                    };
+                    if mode == 2 {
+                        let mut b = self.app.block_info();
+                        step(&mut b);
+                        self.app.set_block(b);
+                    } else {
+                        self.app.update_block(step);
+                    }
                 });
                 if let Err(p) = r {
                     failure("no_panic", "panic", format!("update_block: {}", p));
